@@ -133,6 +133,10 @@ def run_A(job, ob):
     stops = set()
     for pi_, o in enumerate(outs):
         if o.exc is not None:
+            from ..harness import exc_origin
+            if exc_origin(o.exc) == "harness":
+                ob.fail_harness(f"harness raised: {o.exc!r}")
+                continue
             ob.prove(f"no-exception[path{pi_}]", o.pc, False, cex=lambda m, o=o: dict(kind="A", exc=repr(o.exc)))
             continue
         r = o.value
@@ -202,6 +206,10 @@ def run_B(job, ob):
     with shadowed():
         for o in ex.explore(run):
             if o.exc is not None:
+                from ..harness import exc_origin
+                if exc_origin(o.exc) == "harness":
+                    ob.fail_harness(f"harness raised: {o.exc!r}")
+                    continue
                 ob.fail_harness(f"raised: {o.exc!r}")
                 continue
             new, pol, V, g, conv, asp = o.value
@@ -279,6 +287,10 @@ def run_C(job, ob):
     nconv = 0
     for pi_, o in enumerate(outs):
         if o.exc is not None:
+            from ..harness import exc_origin
+            if exc_origin(o.exc) == "harness":
+                ob.fail_harness(f"harness raised: {o.exc!r}")
+                continue
             ob.fail_harness(f"raised: {o.exc!r}")
             continue
         r = o.value
